@@ -933,3 +933,194 @@ def rule_hello_checks(ctx):
 
 
 RULES.insert(8, ("C08.HELLO", "quick", rule_hello_checks))
+
+
+# ----------------------------------------------------------------- PRESENCE
+# uses whose safety is a CONDITIONAL presence fact: (function, type) -> (condition type, guard names, reason).
+# The rule verifies both halves: the hello sanity checks establish `condition type present => type
+# present`, and every such use is conjoined (earlier operand of the same `and`) with one of the guard names.
+PRESENCE_ASSUMED = {
+    ("_serverTLS13Handshake", "ExtensionType.psk_key_exchange_modes"):
+        ("ExtensionType.pre_shared_key", ("psks", "psk"),
+         "psk_key_exchange_modes is only consulted when the hello carries pre_shared_key (`psks`) or a PSK was "
+         "selected from it (`psk`); _serverGetClientHello refuses a TLS 1.3 hello that has pre_shared_key "
+         "without psk_key_exchange_modes"),
+}
+
+
+def _conditional_fact(ctx, role, cond_typ, typ):
+    """producer establishes: extension cond_typ present => extension typ present (TLS 1.3 hello)."""
+    from ..query import truthy_edges, falsy_edges
+    pname, hs, msgvar = PRODUCERS[role]
+    fi = ctx.index.func(TLSCONN + pname)
+    g = ctx.an.cfg(fi)
+    from .common import getmsg_nodes
+    gm = getmsg_nodes(g, hs_type=hs)
+    ys = [n for n in g.nodes if is_value_yield(n)]
+    groups = _ext_vars(fi, g, {msgvar})
+    cut = set()
+    for (msg, t), defs in groups.items():
+        if t == typ:
+            cut |= _alias_cuts(g, defs)
+        if t == cond_typ:
+            for d, v in defs:
+                cut |= falsy_edges(g, v)
+    for t in g.nodes:
+        if t.kind == "test" and "(3, 4) in ver_ext.versions" in norm(t.expr):
+            cut.add((t.id, "F"))
+    seen = g.reach(g.normal_succ(gm[0]), cut=cut)
+    return not any(y.id in seen for y in ys)
+
+
+def _present_facts(ctx, role, assume_tls13):
+    """extension types that are present whenever the hello producer of this role yields."""
+    from ..query import truthy_edges
+    pname, hs, msgvar = PRODUCERS[role]
+    fi = ctx.index.func(TLSCONN + pname)
+    g = ctx.an.cfg(fi)
+    from .common import getmsg_nodes
+    gm = getmsg_nodes(g, hs_type=hs)
+    ys = [n for n in g.nodes if is_value_yield(n)]
+    facts = set()
+    for (msg, typ), defs in _ext_vars(fi, g, {msgvar} | ({"result"} if role == "client" else set())).items():
+        cut = set()
+        for d, v in defs:
+            cut |= truthy_edges(g, v)
+        if assume_tls13:
+            for t in g.nodes:
+                if t.kind == "test" and "(3, 4) in ver_ext.versions" in norm(t.expr):
+                    cut.add((t.id, "F"))
+        seen = g.reach(g.normal_succ(gm[0]), cut=cut)
+        if not any(y.id in seen for y in ys) and typ not in REPLACED_AFTER_HRR:
+            facts.add(typ)
+    return facts
+
+
+def _alias_cuts(g, defs):
+    """edges on which the extension bound by `defs` [(def node, var)] is known present: tests of any of
+    the variables, counted only where every definition of the variable reaching the test is one of
+    these bindings (the names `ext`, `old_ext`, `new_ext` are reused for other extensions)."""
+    from ..query import truthy_when
+    mine = {}
+    for d, v in defs:
+        mine.setdefault(v, set()).add(d.id)
+    cut = set()
+    for t in g.nodes:
+        if t.kind != "test" or t.expr is None:
+            continue
+        for lab, outcome in (("T", True), ("F", False)):
+            for v in truthy_when(t.expr, outcome):
+                if v in mine and {r.id for r in reaching_defs(g, t, v)} <= mine[v]:
+                    cut.add((t.id, lab))
+    return cut
+
+
+def _unreachable_when_absent(ctx, fi, g, d, v, u, others):
+    """finite-domain discharge: with `v` absent (None) and every other extension variable of the
+    function either absent or present, the walk from the binding never reaches the use."""
+    import itertools
+    from ..condeval import outcomes, Rec
+    from .common import dead_edge_labels
+    names = sorted({w for w in others if w != v and any(
+        t.kind == "test" and t.expr is not None and w in {x.id for x in ast.walk(t.expr) if isinstance(x, ast.Name)}
+        and v in {x.id for x in ast.walk(t.expr) if isinstance(x, ast.Name)} for t in g.nodes)})[:3]
+    txt = norm(u.ast)
+    cache = {}
+
+    def ao(t):
+        if t.id not in cache:
+            cache[t.id] = dead_edge_labels(g, t, [g.exit])
+        return cache[t.id]
+    for combo in itertools.product([None, Rec(present=True)], repeat=len(names)):
+        env = dict(zip(names, combo))
+        env[v] = None
+        reached = set()
+        outcomes(g, fi.node, env, ao, watch={txt}, reached=reached, start=g.normal_succ(d))
+        if reached:
+            return False
+    return True
+
+
+def rule_presence(ctx):
+    """PRESENCE: `v = <received message>.getExtension(T)` is None when the peer left the extension out;
+    every `v.attr` / `v[..]` is reachable (from where the message was received) only through a test
+    that the extension is present - on `v` or on another variable bound to the same extension of the
+    same message - or T is an extension whose presence the hello sanity checks of that role
+    establish on every path, or the use is unreachable for every absent/present combination of the
+    extension variables its guards mention (finite-domain walk)."""
+    R = "C08.PRESENCE"
+    est = {r: _present_facts(ctx, r, False) for r in ("server", "client")}
+    est13 = {r: _present_facts(ctx, r, True) for r in ("server", "client")}
+    ctx.info["extensions_present_after_hello_sanity_checks"] = {
+        r: sorted(t.split(".")[-1] for t in v) for r, v in est13.items()}
+    n_uses = 0
+    for fi in ctx.index.all_functions():
+        if fi.module.name not in ("tlsconnection", "tlsrecordlayer") or fi.cls is None:
+            continue
+        role = "server" if re.match(r"_(server|handshakeServer)", fi.name) or fi.name in ("_handle_srv_pha",) else \
+            ("client" if re.match(r"_(client|handshakeClient)", fi.name) or fi.name == "_handle_pha" else None)
+        if role is None:
+            continue
+        g = ctx.an.cfg(fi)
+        producer = PRODUCERS[role][0]
+        groups = _ext_vars(fi, g, RECEIVED[role])
+        allvars = {n.ast.targets[0].id for n in g.nodes if n.kind == "stmt" and isinstance(n.ast, ast.Assign)
+                   and len(n.ast.targets) == 1 and isinstance(n.ast.targets[0], ast.Name)
+                   and isinstance(n.ast.value, ast.Call) and call_name(n.ast.value) == "getExtension"}
+        for (msg, typ), defs in groups.items():
+            cut = _alias_cuts(g, defs)
+            msgdefs = [n for n in g.nodes if n.kind == "stmt" and isinstance(n.ast, ast.Assign)
+                       and any(attr_chain(t) == msg for t in n.ast.targets)]
+            for d, v in defs:
+                others = [n for n in g.nodes if assigns(n, v) and n is not d]
+                others += [n for n in g.nodes if n.kind == "loop" and isinstance(n.ast, ast.For)
+                           and v in {x.id for x in ast.walk(n.ast.target) if isinstance(x, ast.Name)}]
+                # epoch: the last binding of the message before this getExtension (or the entry)
+                starts = [m for m in msgdefs if d.id in g.reach(g.normal_succ(m), blocked=[o for o in msgdefs if o is not m])]
+                srcs = [x for m in starts for x in g.normal_succ(m)] or [g.entry]
+                seen_abs = g.reach(srcs, blocked=[o for o in msgdefs if o not in starts], cut=cut)
+                if d.id not in seen_abs:
+                    continue        # the binding itself is only reached with the extension present
+                seen = g.reach(g.normal_succ(d), blocked=others, cut=cut)
+                for u in g.nodes:
+                    if u.id not in seen or u.expr is None:
+                        continue
+                    hit = None
+                    for x in ast.walk(u.expr):
+                        if isinstance(x, (ast.Attribute, ast.Subscript)) and isinstance(x.value, ast.Name) \
+                                and x.value.id == v and isinstance(x.ctx, ast.Load) \
+                                and not _guarded_in_expr(u.expr, x.value, v):
+                            hit = x
+                            break
+                    if hit is None:
+                        continue
+                    n_uses += 1
+                    what = "%s %s #%s" % (fi.short, v, norm(u.expr)[:50])
+                    facts = est13[role] if ("TLS13" in fi.name or _under_tls13_test(fi.node, u.ast)) else est[role]
+                    if fi.name != producer and typ in facts:
+                        ctx.ok(R, what + " (presence established by %s)" % producer)
+                        continue
+                    if u.kind == "stmt" and _unreachable_when_absent(ctx, fi, g, d, v, u, allvars):
+                        ctx.ok(R, what + " (unreachable when absent: finite-domain walk)")
+                        continue
+                    if (fi.name, typ) in PRESENCE_ASSUMED:
+                        cond_typ, guards, why = PRESENCE_ASSUMED[(fi.name, typ)]
+                        conj = False
+                        for bo in ast.walk(u.expr):
+                            if isinstance(bo, ast.BoolOp) and isinstance(bo.op, ast.And):
+                                for i, val in enumerate(bo.values):
+                                    if any(y is hit for y in ast.walk(val)):
+                                        conj = any({x.id for x in ast.walk(p_) if isinstance(x, ast.Name)} & set(guards)
+                                                   for p_ in bo.values[:i])
+                        if conj and _conditional_fact(ctx, role, cond_typ, typ):
+                            ctx.exempt(R, what, why)
+                            continue
+                    ctx.fail(R, fi.qname, "`%s` of %s used without a presence test (%s)" % (v, typ.split(".")[-1], norm(u.expr)[:50]),
+                             "`%s = %s.getExtension(%s)` is None when the peer leaves the extension out, and `%s` "
+                             "dereferences it on a path without a test of `%s`: the peer can make the handshake die "
+                             "with AttributeError instead of an alert" % (v, msg, typ, norm(u.expr)[:70], v),
+                             fi.loc(u.ast), path=lines(g.path(seen, u.id)))
+    ctx.info["presence_uses"] = n_uses
+
+
+RULES.insert(6, ("C08.PRESENCE", "quick", rule_presence))
